@@ -1,18 +1,921 @@
-"""Differential / metamorphic checks (C03, C19, C20.B3, C17 long wrap) - filled in later."""
+"""Differential / metamorphic simulations:
 
+  C03  segmentation independence   (same broker bytes, different chunk compositions)
+  C19  address isolation           (solo runs vs. interleaved run on one factory)
+  C20  rule B3                     (schedule with the rejected calls deleted)
+  C17  long wrap                   (> 65535 identifier allocations with requests kept unfinished)
+"""
+import hashlib
+import json
+import os
+import random
+import time
+import itertools
+from concurrent.futures import ProcessPoolExecutor
+import multiprocessing
+
+from sim import refcodec as rc
+from sim.world import World
+from sim.engine import Ledger
+from sim import gen as G
+from sim import runner
+
+VERIF = os.path.dirname(os.path.dirname(os.path.abspath(__file__)))
+
+
+# ------------------------------------------------------------ observation log
+
+class Renamer(object):
+    def __init__(self):
+        self.ids = {}
+        self.rids = {}
+        self.cis = {}
+        self.tids = {}
+
+    def mid(self, i):
+        if i is None:
+            return None
+        if i not in self.ids:
+            self.ids[i] = "#%d" % len(self.ids)
+        return self.ids[i]
+
+    def rid(self, r):
+        if r not in self.rids:
+            self.rids[r] = len(self.rids)
+        return self.rids[r]
+
+    def ci(self, c):
+        if c not in self.cis:
+            self.cis[c] = len(self.cis)
+        return self.cis[c]
+
+    def tid(self, t):
+        if t not in self.tids:
+            self.tids[t] = len(self.tids)
+        return self.tids[t]
+
+
+def _norm_packets(raw, ver, rn, rename_ids):
+    """bytes -> list of comparable packet descriptions (identifiers renamed)."""
+    if not rename_ids:
+        return raw.hex()
+    frames, pos, err = rc.split_stream(raw, 0)
+    out = []
+    for f in frames:
+        try:
+            p = rc.decode(f, ver, strict=False)
+        except rc.Malformed:
+            out.append(("raw", f.hex()))
+            continue
+        d = dict(p)
+        # only identifiers the client allocates are renamed; PUBACK/PUBREC/PUBCOMP echo
+        # identifiers chosen by the broker
+        if "id" in d and d["id"] is not None and d["type"] in ("PUBLISH", "PUBREL", "SUBSCRIBE", "UNSUBSCRIBE"):
+            d["id"] = rn.mid(d["id"])
+        if "payload" in d:
+            d["payload"] = hashlib.sha1(d["payload"]).hexdigest()[:12] + ":%d" % len(d["payload"])
+        for k in ("will_message", "password"):
+            if d.get(k) is not None:
+                d[k] = bytes(d[k]).hex()
+        out.append(tuple(sorted((k, repr(v)) for k, v in d.items())))
+    if pos != len(raw):
+        out.append(("partial", raw[pos:].hex()))
+    return tuple(out)
+
+
+def obs_log(w, addr=None, rename_ids=False, with_time=True, from_seq=0, skip_rids=(), with_dispatch=True,
+            with_timers=True):
+    """The observable behaviour of the client as a list of comparable tuples."""
+    rn = Renamer()
+    out = []
+    conn_addr = dict((c.idx, c.addr) for c in w.conns)
+    conn_ver = {}
+    cur_ci = None
+    skip_disp = False
+    rid_kind = dict((r, q.get("m")) for r, q in w.reqs.items())
+    for e in w.events:
+        k = e[0]
+        seq = e[1]
+        if k == "D":
+            cur_ci = e[5]
+            skip_disp = False
+            if e[3] == "api" and isinstance(e[6], dict) and e[6].get("rid") in skip_rids:
+                skip_disp = True
+        if seq <= from_seq or skip_disp:
+            continue
+        t = (round(e[2], 6),) if with_time else ()
+        if k == "D":
+            if addr is not None and e[4] != addr:
+                continue
+            if with_dispatch:
+                info = e[6]
+                what = e[3]
+                if what == "api":
+                    what = "api:%s" % info.get("m")
+                elif what == "timer":
+                    what = "timer"
+                out.append(("D", what) + t)
+        elif k == "W":
+            if addr is not None and conn_addr.get(e[3]) != addr:
+                continue
+            ver = conn_ver.get(e[3], rc.V311)
+            if e[4][:1] == b"\x10":
+                try:
+                    p = rc.decode(e[4], rc.V311, strict=False)
+                    ver = conn_ver[e[3]] = rc.V31 if p.get("level") == 3 else rc.V311
+                except rc.Malformed:
+                    pass
+            out.append(("W", rn.ci(e[3]), _norm_packets(e[4], ver, rn, rename_ids), e[5]) + t)
+        elif k == "X":
+            if addr is not None and conn_addr.get(e[3]) != addr:
+                continue
+            out.append(("X", rn.ci(e[3]), e[4]) + t)
+        elif k == "CB":
+            if addr is not None and conn_addr.get(e[3]) != addr:
+                continue
+            args = e[5]
+            if rename_ids and e[4] == "onPublish" and len(args) == 6:
+                args = args[:5] + (("in", args[5]),)
+            out.append(("CB", rn.ci(e[3]), e[4], args) + t)
+        elif k == "F":
+            rq = w.reqs.get(e[3])
+            if rq is None or (addr is not None and rq["addr"] != addr) or e[3] in skip_rids:
+                continue
+            val = e[5]
+            if rename_ids and e[4] and rid_kind.get(e[3]) in ("publish", "unsubscribe") and isinstance(val, int) \
+                    and not isinstance(val, bool):
+                val = rn.mid(val)
+            if not e[4] and isinstance(val, tuple) and len(val) == 3 and val[1] is not None:
+                val = (val[0], rn.ci(val[1]), val[2])
+            out.append(("F", rn.rid(e[3]), e[4], val) + t)
+        elif k == "R":
+            rq = w.reqs.get(e[3])
+            if rq is None or (addr is not None and rq["addr"] != addr) or e[3] in skip_rids:
+                continue
+            val = e[5]
+            if rename_ids and e[4] == "deferred" and isinstance(val, int) and not isinstance(val, bool):
+                val = rn.mid(val)
+            out.append(("R", rn.rid(e[3]), e[4], val))
+        elif k == "TN" and with_timers:
+            if addr is not None and conn_addr.get(e[6]) != addr:
+                continue
+            out.append(("TN", rn.tid(e[3]), round(e[4], 6), "notify" if e[5] == "notify" else ("loop" if e[5] == "LoopingCall" else "t")))
+        elif k == "TC" and with_timers:
+            if e[3] in rn.tids:
+                out.append(("TC", rn.tid(e[3])))
+            elif addr is None:
+                out.append(("TC", rn.tid(e[3])))
+        elif k == "E":
+            if addr is not None and (cur_ci is None or conn_addr.get(cur_ci) != addr):
+                continue
+            out.append(("E", e[3], e[4]) + t)
+    return out
+
+
+def pending_table(w, addr=None):
+    conn_addr = dict((c.idx, c.addr) for c in w.conns)
+    out = []
+    for (tid, due, label, ci) in w.pending_timers():
+        if addr is not None and conn_addr.get(ci) != addr:
+            continue
+        out.append((round(due, 6), "notify" if label == "notify" else ("loop" if label == "LoopingCall" else "t")))
+    return sorted(out)
+
+
+def first_diff(a, b):
+    n = min(len(a), len(b))
+    for i in range(n):
+        if a[i] != b[i]:
+            return i, a[i], b[i]
+    if len(a) != len(b):
+        return n, (a[n] if len(a) > n else "<end>"), (b[n] if len(b) > n else "<end>")
+    return None
+
+
+# =========================================================================== C03
+
+def c03_case(rng, size_class):
+    """A prefix history (steps) and a broker stream S (list of packet dicts)."""
+    prof = rng.choice([3, 3, 2, 1])
+    ver = rng.choice([3, 4])
+    clean = rng.random() < 0.5
+    ka = rng.choice([0, 0, 0, 5, 60])
+    vv = {"$": "v31"} if ver == 3 else {"$": "v311"}
+    pre = [{"op": "app.build", "addr": "A"}]
+    win = rng.choice([1, 2, 4, 16])
+    if win != 1:
+        pre.append({"op": "app.call", "addr": "A", "m": "setWindowSize", "a": [win]})
+    pre.append({"op": "app.call", "addr": "A", "m": "connect", "a": ["seg"], "k": {"keepalive": ka, "cleanStart": clean, "version": vv}})
+    connack_in_stream = rng.random() < 0.4
+    if not connack_in_stream:
+        pre.append({"op": "brk.connack", "addr": "A", "rc": 0, "sp": rng.random() < 0.5})
+    npub = rng.randint(0, 4) if prof & 2 else 0
+    pub_ids = []
+    nid = 0
+    for i in range(npub):
+        q = rng.randint(0, 2)
+        pre.append({"op": "app.call", "addr": "A", "m": "publish",
+                    "k": {"topic": G.gen_topic(rng), "message": G.gen_text(rng, rng.randint(0, 5)), "qos": q}})
+        if q:
+            nid += 1
+            pub_ids.append((nid, q))
+    sub_ids, unsub_ids = [], []
+    if prof & 1 and not connack_in_stream:
+        for i in range(rng.randint(0, 2)):
+            pre.append({"op": "app.call", "addr": "A", "m": "subscribe", "a": [G.gen_topic(rng, True), rng.randint(0, 2)]})
+            nid += 1
+            sub_ids.append(nid)
+        if rng.random() < 0.4:
+            pre.append({"op": "app.call", "addr": "A", "m": "unsubscribe", "a": [G.gen_topic(rng, True)]})
+            nid += 2          # the client burns one identifier per unsubscribe()
+            unsub_ids.append(nid)
+    # ---- the broker stream
+    S = []
+    if connack_in_stream:
+        S.append({"type": "CONNACK", "rc": 0, "session_present": rng.random() < 0.5})
+    n = {"short": rng.randint(1, 3), "medium": rng.randint(2, 8), "long": rng.randint(4, 14)}[size_class]
+    in_q2 = []
+    for i in range(n):
+        kinds = ["PINGRESP"]
+        if prof & 2:
+            kinds += ["PUBACK", "PUBREC", "PUBCOMP", "PUBACK", "PUBREC", "PUBCOMP"]
+        if prof & 1:
+            kinds += ["PUBLISH", "PUBLISH", "PUBLISH", "PUBREL", "SUBACK", "UNSUBACK"]
+        t = rng.choice(kinds)
+        if t in ("PUBACK", "PUBREC", "PUBCOMP"):
+            fit = [i for (i, q) in pub_ids if (q == 1) == (t == "PUBACK")]
+            mid = rng.choice(fit) if (fit and rng.random() < 0.8) else rng.choice([40000, 50000, 65535])
+            S.append({"type": t, "id": mid})
+        elif t == "SUBACK":
+            mid = rng.choice(sub_ids) if (sub_ids and rng.random() < 0.8) else 41000
+            S.append({"type": t, "id": mid, "granted": [rng.choice([0, 1, 2, 0x80]) for _ in range(rng.randint(1, 3))]})
+        elif t == "UNSUBACK":
+            mid = rng.choice(unsub_ids) if (unsub_ids and rng.random() < 0.8) else 42000
+            S.append({"type": t, "id": mid})
+        elif t == "PUBLISH":
+            q = rng.randint(0, 2)
+            if size_class == "short":
+                pl = bytes(rng.randrange(256) for _ in range(rng.randint(0, 2)))
+            else:
+                ln = rng.choice([0, 1, 5, 20, 120, 127, 128, 130, 300, 16383, 16384, 16390] if size_class == "long"
+                                else [0, 1, 5, 20, 120, 127, 128, 130])
+                pl = bytes((i * 7 + ln) & 0xFF for i in range(ln))
+            mid = rng.choice([1, 2, 3, 9, 300, 65535]) if q else None
+            S.append({"type": "PUBLISH", "qos": q, "dup": q > 0 and rng.random() < 0.3, "retain": rng.random() < 0.3,
+                      "topic": G.gen_topic(rng) if size_class != "short" else "t", "payload": pl, "id": mid})
+            if q == 2:
+                in_q2.append(mid)
+        elif t == "PUBREL":
+            mid = rng.choice(in_q2) if (in_q2 and rng.random() < 0.8) else rng.choice([7, 4000])
+            S.append({"type": "PUBREL", "id": mid})
+        else:
+            S.append({"type": "PINGRESP"})
+    cfg = {"profile": prof, "version": ver, "jitter": rng.choice(["zero", "half", "rand", "alt"]), "jseed": rng.randrange(1 << 30),
+           "family": "c03"}
+    return cfg, pre, S, ver
+
+
+def _c03_run(ns, cfg, pre, frames, cuts, times=None):
+    """Execute prefix, then feed `frames` (list of bytes) under the composition
+    `cuts` (sorted byte offsets into the concatenation where a chunk ends).
+    times: None (burst) or list of arrival times per frame (timed mode)."""
+    w = World(ns, cfg)
+    w.observer = None
+    for st in pre:
+        w.run_step(st)
+    mark = w.seq
+    conn = w.live("A")
+    if conn is None:
+        return None, None, None
+    stream = b"".join(frames)
+    if times is None:
+        conn.inb.extend(stream)
+        last = 0
+        for c in list(cuts) + [len(stream)]:
+            if c <= last:
+                continue
+            if conn.lost or conn.transport.phase != "open":
+                break
+            w._deliver(conn, c - last)
+            last = c
+    else:
+        # timed: cuts is a list (per frame) of lists of (offset_in_frame, time)
+        for fr, tarr, pieces in zip(frames, times, cuts):
+            pos = 0
+            for (off, tt) in pieces:
+                w._run_step({"op": "time.advance", "dt": max(0.0, tt - w.now)})
+                if conn.lost or conn.transport.phase != "open":
+                    break
+                conn.inb.extend(fr[pos:off])
+                w._deliver(conn, off - pos)
+                pos = off
+            w._run_step({"op": "time.advance", "dt": max(0.0, tarr - w.now)})
+            if conn.lost or conn.transport.phase != "open":
+                break
+            conn.inb.extend(fr[pos:])
+            w._deliver(conn, len(fr) - pos)
+    log = obs_log(w, with_time=(times is not None), from_seq=mark, with_dispatch=False, with_timers=False)
+    # timers: compare as a table of what is pending at the end (+ what got cancelled is implied)
+    return log, pending_table(w), w
+
+
+def _compositions(n):
+    """all 2^(n-1) compositions of n bytes as cut-offset tuples"""
+    for r in range(n):
+        for c in itertools.combinations(range(1, n), r):
+            yield c
+
+
+def c03_chunk(args):
+    base, start, count, tier = args
+    from sim import boot
+    ns = boot.boot()
+    out = {"cases": 0, "variants": 0, "viol": [], "kinds": {}, "exhaustive_streams": 0, "bytes": 0, "samples": [],
+           "digests": set(), "aborted_cases": 0}
+    for i in range(start, start + count):
+        seed = base + i
+        rng = random.Random(seed)
+        size = ("short", "medium", "long", "medium")[i % 4]
+        cfg, pre, S, ver = c03_case(rng, size)
+        frames = [rc.encode(p, ver) for p in S]
+        total = sum(len(f) for f in frames)
+        bounds = list(itertools.accumulate(len(f) for f in frames))[:-1]
+        ref, reft, w0 = _c03_run(ns, cfg, pre, frames, bounds)
+        if ref is None:
+            continue
+        if any(e[0] == "X" for e in ref):
+            out["aborted_cases"] += 1
+        out["cases"] += 1
+        out["bytes"] += total
+        variants = []
+        if total <= 12:
+            variants += [("all-compositions", c) for c in _compositions(total)]
+            out["exhaustive_streams"] += 1
+        else:
+            variants.append(("whole", ()))
+            variants.append(("byte-at-a-time", tuple(range(1, total))))
+            if total <= (400 if tier == "quick" else 4000):
+                variants += [("single-cut", (c,)) for c in range(1, total)]
+            else:
+                pts = set()
+                for b in [0] + bounds:
+                    for d in range(0, 6):
+                        if 0 < b + d < total:
+                            pts.add(b + d)
+                        if 0 < b - d < total:
+                            pts.add(b - d)
+                for _ in range(60):
+                    pts.add(rng.randrange(1, total))
+                variants += [("single-cut", (c,)) for c in sorted(pts)]
+            # cuts inside fixed header / remaining length of each frame, 2 and 3 cuts
+            hdr = []
+            for b in [0] + bounds:
+                hdr += [b + 1, b + 2, b + 3]
+            hdr = [h for h in hdr if 0 < h < total]
+            for _ in range(20 if tier == "quick" else 80):
+                k = rng.choice([2, 3])
+                pool = hdr if rng.random() < 0.6 else list(range(1, total))
+                if len(pool) >= k:
+                    variants.append(("%d-cut" % k, tuple(sorted(rng.sample(pool, k)))))
+            for _ in range(15 if tier == "quick" else 60):
+                k = rng.randint(1, min(total - 1, 12))
+                variants.append(("random", tuple(sorted(rng.sample(range(1, total), k)))))
+        for kind, cuts in variants:
+            log, tt, _ = _c03_run(ns, cfg, pre, frames, cuts)
+            out["variants"] += 1
+            out["kinds"][kind] = out["kinds"].get(kind, 0) + 1
+            out["digests"].add(hash((seed, cuts)))
+            d = first_diff(ref, log)
+            if d is None and tt != reft:
+                d = ("timers", reft[:4], tt[:4])
+            if d is not None:
+                out["viol"].append({"sig": "C03.G1:%s:%s" % (kind, _dkind(d)), "seed": seed, "kind": "c03",
+                                    "msg": "composition %s (%s) of %d packets/%d bytes behaves differently from one-packet-per-chunk: %r"
+                                           % (list(cuts)[:12], kind, len(frames), total, d),
+                                    "nsteps": len(cuts),
+                                    "replay": {"kind": "c03", "property": "C03", "signature": "C03.G1", "config": cfg, "prefix": pre,
+                                               "frames": [f.hex() for f in frames], "cuts": list(cuts), "mode": "burst", "seed": seed}})
+                break
+        # timed mode (G2): last byte of packet i arrives when packet i arrived in the reference
+        for rep in range(2 if tier == "quick" else 6):
+            tnow = 0.0
+            times = []
+            for f in frames:
+                tnow += rng.choice([0.0, 0.25, 1.0, 3.0, 4.5, 9.0, 30.0])
+                times.append(tnow)
+            w = World(ns, cfg)
+            reft_pieces = [[] for _ in frames]
+            refl, reftab, _ = _c03_run(ns, cfg, pre, frames, reft_pieces, times)
+            pieces = []
+            prev = 0.0
+            for f, ta in zip(frames, times):
+                ps = []
+                k = rng.randint(0, min(3, len(f) - 1))
+                offs = sorted(rng.sample(range(1, len(f)), k)) if k else []
+                for o in offs:
+                    ps.append((o, prev + (ta - prev) * rng.choice([0.0, 0.3, 0.5, 0.9, 1.0])))
+                ps.sort(key=lambda x: (x[1], x[0]))
+                # offsets must increase with time
+                ps = [(o, tt) for o, tt in zip(sorted(o for o, _ in ps), sorted(tt for _, tt in ps))]
+                pieces.append(ps)
+                prev = ta
+            log, tab, _ = _c03_run(ns, cfg, pre, frames, pieces, times)
+            out["variants"] += 1
+            out["kinds"]["timed"] = out["kinds"].get("timed", 0) + 1
+            d = first_diff(refl, log)
+            if d is None and tab != reftab:
+                d = ("timers", reftab[:4], tab[:4])
+            if d is not None:
+                out["viol"].append({"sig": "C03.G2:timed:%s" % _dkind(d), "seed": seed, "kind": "c03",
+                                    "msg": "timed segmentation of %d packets behaves differently: %r" % (len(frames), d),
+                                    "nsteps": sum(len(p) for p in pieces),
+                                    "replay": {"kind": "c03", "property": "C03", "signature": "C03.G2", "config": cfg, "prefix": pre,
+                                               "frames": [f.hex() for f in frames], "cuts": pieces, "times": times, "mode": "timed",
+                                               "seed": seed}})
+                break
+        if len(out["samples"]) < 1 and total < 60:
+            out["samples"].append({"seed": seed, "prefix": pre, "stream": [f.hex() for f in frames],
+                                   "variants": len(variants)})
+    out["digests"] = len(out["digests"])
+    return out
+
+
+def _dkind(d):
+    try:
+        a = d[1]
+        return a[0] if isinstance(a, tuple) else str(a)
+    except Exception:
+        return "?"
+
+
+def c03_replay(ns, rp):
+    frames = [bytes.fromhex(x) for x in rp["frames"]]
+    bounds = list(itertools.accumulate(len(f) for f in frames))[:-1]
+    if rp["mode"] == "burst":
+        ref, reft, _ = _c03_run(ns, rp["config"], rp["prefix"], frames, bounds)
+        log, tt, _ = _c03_run(ns, rp["config"], rp["prefix"], frames, tuple(rp["cuts"]))
+    else:
+        ref, reft, _ = _c03_run(ns, rp["config"], rp["prefix"], frames, [[] for _ in frames], rp["times"])
+        log, tt, _ = _c03_run(ns, rp["config"], rp["prefix"], frames, [[tuple(x) for x in p] for p in rp["cuts"]], rp["times"])
+    d = first_diff(ref, log)
+    if d is None and tt != reft:
+        d = ("timers", reft[:4], tt[:4])
+    if d is not None:
+        return False, "differs from the one-packet-per-chunk run at %r" % (d,)
+    return True, ""
+
+
+# =========================================================================== C19
+
+def _solo_history(ns, seed, addr, fam, length):
+    """Generate a history for one address with the online generator, recorded as
+    (time, step) with every timer firing made explicit."""
+    rng = random.Random(seed)
+    cfg = G.make_config(rng, fam)
+    cfg["two_addr"] = False
+    cfg["faults"]["stall"] = False
+    cfg["faults"]["raw"] = False
+    cfg["faults"]["foreign_ack"] = False
+    cfg["length"] = length
+    g = G.Gen(rng, cfg)
+    g.addrs = [addr]
+    w = World(ns, cfg)
+    L = Ledger(w, [], ["none"])
+    w.observer = L.observe
+    hist = []
+    for i in range(length):
+        st = g.next(w, L)
+        if st["op"] == "net.stall" or st["op"] == "sim.set_id":
+            continue
+        if st["op"] == "time.advance":
+            target = w.now + st["dt"]
+            n = 0
+            while n < 50:
+                order = w.reactor.due_order()
+                if not order or order[0].getTime() > target + 1e-6:
+                    break
+                hist.append((order[0].getTime(), {"op": "time.fire1", "addr": addr}))
+                w._fire(order[0])
+                n += 1
+            if n < 50:
+                w.reactor.rightNow = max(w.reactor.rightNow, target)
+                hist.append((w.now, {"op": "time.set", "addr": addr}))
+            continue
+        if st["op"] == "time.fire":
+            order = w.reactor.due_order()
+            if not order:
+                continue
+            if order[0].getTime() > 1e8:
+                continue
+            hist.append((max(w.now, order[0].getTime()), {"op": "time.fire1", "addr": addr}))
+            w._fire(order[0])
+            continue
+        hist.append((w.now, st))
+        w.run_step(st)
+    return cfg, hist
+
+
+def _run_timed(ns, cfg, hist, props=None):
+    """Execute [(t, step)] on one world/factory.  time.fire1 fires the earliest
+    timer owned by a connection of step['addr']."""
+    w = World(ns, cfg)
+    L = None
+    if props:
+        L = Ledger(w, runner.all_rules(), props)
+        w.observer = L.observe
+    for (t, st) in hist:
+        if t > w.reactor.rightNow:
+            w.reactor.rightNow = t
+        op = st["op"]
+        if op == "time.set":
+            continue
+        if op == "time.fire1":
+            addr = st["addr"]
+            own = [dc for dc in w.reactor.due_order()
+                   if w.timer_owner.get(dc.sim_tid) is not None and w.conns[w.timer_owner[dc.sim_tid]].addr == addr]
+            if not own:
+                w.note("no timer to fire for %s" % addr)
+                continue
+            dc = own[0]
+            # fire at the instant the history says (== its due time in the solo run)
+            w.reactor.calls.remove(dc)
+            dc.called = 1
+            label = w.timer_label.get(dc.sim_tid)
+            ci = w.timer_owner.get(dc.sim_tid)
+            w.dispatch("timer", w.conns[ci], {"tid": dc.sim_tid, "label": label}, lambda dc=dc: dc.func(*dc.args, **dc.kw))
+            continue
+        w.run_step(st)
+    return w, L
+
+
+def c19_chunk(args):
+    base, start, count, tier = args
+    from sim import boot
+    ns = boot.boot()
+    out = {"cases": 0, "viol": [], "interleavings": 0, "steps": 0, "samples": [], "digests": set(), "probes": {}}
+    fams = ["publisher", "subscriber", "general", "persistent", "clean", "window", "qos2", "subreq", "closing", "keepalive"]
+    for i in range(start, start + count):
+        seed = base + i
+        rng = random.Random(seed)
+        famA, famB = rng.choice(fams), rng.choice(fams)
+        ln = rng.choice([8, 15, 25, 40])
+        cfgA, HA = _solo_history(ns, seed * 2 + 1, "A", famA, ln)
+        cfgB, HB = _solo_history(ns, seed * 2 + 2, "B", famB, ln)
+        # one factory => one profile, one jitter policy, one id start for both
+        cfg = dict(cfgA)
+        cfg["two_addr"] = True
+        cfg["start_id"] = rng.choice([None, None, 65530, 65533, 65535])
+        cfgB2 = dict(cfgB)
+        for k in ("profile", "jitter", "jseed", "start_id"):
+            cfgB2[k] = cfg[k]
+        if cfgB2["profile"] != cfgB["profile"]:
+            # B's history was generated for another profile: regenerate it for the joint one
+            rngB = random.Random(seed * 2 + 2)
+            # (simple way: force the profile in the generator's config)
+            cfgB, HB = _solo_history_forced(ns, seed * 2 + 2, "B", famB, ln, cfg["profile"])
+            cfgB2 = dict(cfgB)
+            for k in ("profile", "jitter", "jseed", "start_id"):
+                cfgB2[k] = cfg[k]
+        cfgA2 = dict(cfg)
+        wa, _ = _run_timed(ns, cfgA2, HA)
+        wb, _ = _run_timed(ns, cfgB2, HB)
+        la = obs_log(wa, "A", rename_ids=True)
+        lb = obs_log(wb, "B", rename_ids=True)
+        out["cases"] += 1
+        for rep in range(2 if tier == "quick" else 5):
+            # merge by time; ties broken by a seeded coin
+            ia = ib = 0
+            merged = []
+            while ia < len(HA) or ib < len(HB):
+                if ib >= len(HB):
+                    pick = "A"
+                elif ia >= len(HA):
+                    pick = "B"
+                elif HA[ia][0] < HB[ib][0] - 1e-9:
+                    pick = "A"
+                elif HB[ib][0] < HA[ia][0] - 1e-9:
+                    pick = "B"
+                else:
+                    pick = "A" if rng.random() < 0.5 else "B"
+                if pick == "A":
+                    merged.append(HA[ia])
+                    ia += 1
+                else:
+                    merged.append(HB[ib])
+                    ib += 1
+            wj, Lj = _run_timed(ns, cfg, merged, ["C17"])
+            out["interleavings"] += 1
+            out["steps"] += len(merged)
+            out["digests"].add(wj.digest())
+            ja = obs_log(wj, "A", rename_ids=True)
+            jb = obs_log(wj, "B", rename_ids=True)
+            bad = None
+            for nm, solo, joint in (("A", la, ja), ("B", lb, jb)):
+                d = first_diff(solo, joint)
+                if d is not None:
+                    bad = (nm, d)
+                    break
+            if bad is None and Lj.violations:
+                v = Lj.violations[0]
+                out["viol"].append({"sig": "C19.V2:%s" % v.sig, "seed": seed, "kind": "c19", "msg": v.msg, "nsteps": len(merged),
+                                    "replay": {"kind": "c19", "property": "C19", "signature": "C19.V2", "config": cfg,
+                                               "HA": HA, "HB": HB, "merged": merged, "seed": seed}})
+                break
+            if bad is not None:
+                nm, d = bad
+                out["viol"].append({"sig": "C19.V1:%s" % _dkind(d), "seed": seed, "kind": "c19",
+                                    "msg": "address %s behaves differently when address %s is active on the same factory: entry %d solo=%r joint=%r"
+                                           % (nm, "B" if nm == "A" else "A", d[0], d[1], d[2]),
+                                    "nsteps": len(merged),
+                                    "replay": {"kind": "c19", "property": "C19", "signature": "C19.V1", "config": cfg,
+                                               "cfgB": cfgB2, "HA": HA, "HB": HB, "merged": merged, "seed": seed}})
+                break
+        for w_ in (wa, wb):
+            if any(c.lost for c in w_.conns):
+                out["probes"]["solo_with_loss"] = out["probes"].get("solo_with_loss", 0) + 1
+        if len(out["samples"]) < 1 and len(HA) + len(HB) < 40:
+            out["samples"].append({"seed": seed, "A": [s for _, s in HA][:20], "B": [s for _, s in HB][:20]})
+    out["digests"] = len(out["digests"])
+    return out
+
+
+def _solo_history_forced(ns, seed, addr, fam, length, profile):
+    rng = random.Random(seed)
+    cfg = G.make_config(rng, fam)
+    cfg["profile"] = profile
+    cfg["two_addr"] = False
+    cfg["faults"]["stall"] = False
+    cfg["faults"]["raw"] = False
+    cfg["faults"]["foreign_ack"] = False
+    cfg["length"] = length
+    g = G.Gen(rng, cfg)
+    g.addrs = [addr]
+    w = World(ns, cfg)
+    L = Ledger(w, [], ["none"])
+    w.observer = L.observe
+    hist = []
+    for i in range(length):
+        st = g.next(w, L)
+        if st["op"] in ("net.stall", "sim.set_id"):
+            continue
+        if st["op"] in ("time.advance", "time.fire"):
+            order = w.reactor.due_order()
+            if st["op"] == "time.fire":
+                if not order or order[0].getTime() > 1e8:
+                    continue
+                hist.append((max(w.now, order[0].getTime()), {"op": "time.fire1", "addr": addr}))
+                w._fire(order[0])
+            else:
+                target = w.now + st["dt"]
+                n = 0
+                while n < 50:
+                    order = w.reactor.due_order()
+                    if not order or order[0].getTime() > target + 1e-6:
+                        break
+                    hist.append((order[0].getTime(), {"op": "time.fire1", "addr": addr}))
+                    w._fire(order[0])
+                    n += 1
+                if n < 50:
+                    w.reactor.rightNow = max(w.reactor.rightNow, target)
+                    hist.append((w.now, {"op": "time.set", "addr": addr}))
+            continue
+        hist.append((w.now, st))
+        w.run_step(st)
+    return cfg, hist
+
+
+def c19_replay(ns, rp):
+    HA = [(t, s) for t, s in rp["HA"]]
+    HB = [(t, s) for t, s in rp["HB"]]
+    merged = [(t, s) for t, s in rp["merged"]]
+    cfg = rp["config"]
+    wa, _ = _run_timed(ns, cfg, HA)
+    wb, _ = _run_timed(ns, rp.get("cfgB", cfg), HB)
+    wj, Lj = _run_timed(ns, cfg, merged, ["C17"])
+    for nm, solo, joint in (("A", obs_log(wa, "A", True), obs_log(wj, "A", True)), ("B", obs_log(wb, "B", True), obs_log(wj, "B", True))):
+        d = first_diff(solo, joint)
+        if d is not None:
+            return False, "address %s differs at entry %d: solo=%r joint=%r" % (nm, d[0], d[1], d[2])
+    if Lj.violations:
+        return False, "identifier collision in the joint run: %s" % Lj.violations[0].msg
+    return True, ""
+
+
+# ====================================================================== C20 B3
 
 def metamorphic_c20(ns, seed, tier):
-    return None
+    n = 400 if tier == "quick" else 6000
+    base = (seed << 32) + (1 << 28)
+    out = {"viol": [], "coverage": {"metamorphic_cases": 0, "rejected_calls_deleted": 0}}
+    for i in range(n):
+        s = base + i
+        # no step with an absolute client identifier: a rejected call may legitimately
+        # burn an identifier, and identifiers are compared after renaming
+        r = runner.run_seed(ns, s, "args", ["C20"], stop_early=False,
+                            override={"faults": {"foreign_ack": False, "raw": False}, "start_id": None})
+        w1 = r.world
+        bad_rids = set(rid for rid, q in w1.reqs.items() if q.get("tag") == "bad")
+        if not bad_rids:
+            continue
+        # only calls that really were rejected count (a bad call in a state that
+        # forbids it anyway is refused for another reason - still without effect)
+        steps2 = [st for st in r.steps if st.get("tag") != "bad"]
+        r2 = runner.run_steps(ns, r.cfg, steps2, ["C20"])
+        out["coverage"]["metamorphic_cases"] += 1
+        out["coverage"]["rejected_calls_deleted"] += len(bad_rids)
+        l1 = obs_log(w1, rename_ids=True, skip_rids=bad_rids, with_dispatch=False)
+        l2 = obs_log(r2.world, rename_ids=True, with_dispatch=False)
+        d = first_diff(l1, l2)
+        if d is not None:
+            out["viol"].append({"sig": "C20.B3:%s" % _dkind(d), "seed": s, "kind": "c20b3", "nsteps": len(r.steps),
+                                "msg": "deleting the rejected calls changes the behaviour at entry %d: with=%r without=%r" % d,
+                                "replay": {"kind": "c20b3", "property": "C20", "signature": "C20.B3", "config": r.cfg,
+                                           "steps": r.steps, "seed": s}})
+            if len(out["viol"]) >= 3:
+                break
+    return out
 
+
+def c20_replay(ns, rp):
+    r1 = runner.run_steps(ns, rp["config"], rp["steps"], ["C20"])
+    bad_rids = set(rid for rid, q in r1.world.reqs.items() if q.get("tag") == "bad")
+    r2 = runner.run_steps(ns, rp["config"], [st for st in rp["steps"] if st.get("tag") != "bad"], ["C20"])
+    d = first_diff(obs_log(r1.world, rename_ids=True, skip_rids=bad_rids, with_dispatch=False),
+                   obs_log(r2.world, rename_ids=True, with_dispatch=False))
+    if d is not None:
+        return False, "deleting the rejected calls changes the behaviour at entry %d: with=%r without=%r" % d
+    return True, ""
+
+
+# ================================================================ C17 long wrap
 
 def long_wrap(ns, seed):
-    return None
+    """> 65535 identifier allocations with requests of every kind unfinished."""
+    from sim.rules_wire import WireRules
+    rng = random.Random(seed)
+    out = {"viol": [], "coverage": {}}
+    for prof, ver in ((3, 4),):
+        cfg = {"profile": prof, "version": ver, "jitter": "zero", "family": "longwrap"}
+        w = World(ns, cfg)
+        L = Ledger(w, [WireRules()], ["C17"])
+        w.observer = L.observe
+        pre = [{"op": "app.build", "addr": "A"},
+               {"op": "app.call", "addr": "A", "m": "setWindowSize", "a": [4]},
+               {"op": "app.call", "addr": "A", "m": "connect", "a": ["wrap"], "k": {"cleanStart": False}},
+               {"op": "brk.connack", "addr": "A", "rc": 0},
+               {"op": "app.call", "addr": "A", "m": "subscribe", "a": ["keep/#", 1]},          # stays unacknowledged
+               {"op": "app.call", "addr": "A", "m": "unsubscribe", "a": ["keep/x"]},           # stays unacknowledged
+               {"op": "app.call", "addr": "A", "m": "publish", "k": {"topic": "k", "message": "q2", "qos": 2}},
+               {"op": "brk.ack", "addr": "A", "kind": "PUBREC", "ref": 0},                    # PUBREL stays unanswered
+               {"op": "app.call", "addr": "A", "m": "publish", "k": {"topic": "k", "message": "q1", "qos": 1}}]  # unanswered
+        for st in pre:
+            w.run_step(st)
+        n = 0
+        while n < 66000 and not L.violations:
+            w.run_step({"op": "app.call", "addr": "A", "m": "publish", "k": {"topic": "t", "message": "m", "qos": 1}})
+            # answer the newest PUBACK only (the old q1 keeps waiting): last entry of need
+            need = w.broker.session("A").need["PUBACK"]
+            w.run_step({"op": "brk.ack", "addr": "A", "kind": "PUBACK", "ref": len(need) - 1})
+            n += 1
+            if n % 2000 == 0:
+                # keep memory bounded: the event log is not needed any more
+                del w.events[:L.pos]
+                L.pos = 0
+        out["coverage"]["allocations"] = n
+        out["coverage"]["kept_unfinished"] = sum(1 for r in L.reqs.values() if r.pending)
+        for v in L.violations:
+            out["viol"].append({"sig": "C17.LW:" + v.sig, "seed": seed, "kind": "c17lw", "nsteps": n, "msg": v.msg,
+                                "replay": {"kind": "c17lw", "property": "C17", "signature": v.sig, "seed": seed}})
+    return out
+
+
+# ================================================================== entry points
+
+def replay(ns, rp):
+    k = rp["kind"]
+    if k == "c03":
+        ok, msg = c03_replay(ns, rp)
+    elif k == "c19":
+        ok, msg = c19_replay(ns, rp)
+    elif k == "c20b3":
+        ok, msg = c20_replay(ns, rp)
+    elif k == "c17lw":
+        r = long_wrap(ns, rp.get("seed", 0))
+        ok, msg = (not r["viol"]), (r["viol"][0]["msg"] if r["viol"] else "")
+    else:
+        raise ValueError(k)
+    return ok, msg
 
 
 def main(ns, prop, tier, seed, write_evidence, known):
-    print("not implemented yet")
-    return 2
-
-
-def replay(ns, rp):
-    return True, ""
+    t0 = time.time()
+    fn = c03_chunk if prop == "C03" else c19_chunk
+    if prop == "C03":
+        n, cap, chunk = (1400, 40, 25) if tier == "quick" else (40000, 420, 50)
+    else:
+        n, cap, chunk = (3000, 40, 50) if tier == "quick" else (80000, 420, 100)
+    n = int(os.environ.get("VERIF_RUNS", "0")) or n
+    cap = float(os.environ.get("VERIF_BUDGET_S", "0")) or cap
+    base = seed << 32
+    jobs = [(base, s, min(chunk, n - s), tier) for s in range(0, n, chunk)]
+    workers = int(os.environ.get("VERIF_WORKERS", "0")) or min(16, os.cpu_count() or 4)
+    tot = {"cases": 0, "variants": 0, "interleavings": 0, "viol": [], "kinds": {}, "samples": [], "digests": 0,
+           "exhaustive_streams": 0, "bytes": 0, "steps": 0, "aborted_cases": 0}
+    errors = []
+    ctx = multiprocessing.get_context("fork")
+    with ProcessPoolExecutor(max_workers=workers, mp_context=ctx) as ex:
+        futs = []
+        it = iter(jobs)
+        pending = set()
+        for _ in range(workers * 2):
+            j = next(it, None)
+            if j is not None:
+                pending.add(ex.submit(fn, j))
+        from concurrent.futures import wait, FIRST_COMPLETED
+        while pending:
+            done, pending = wait(pending, timeout=900, return_when=FIRST_COMPLETED)
+            if not done:
+                errors.append("worker timeout")
+                break
+            for f in done:
+                try:
+                    part = f.result()
+                except Exception as e:
+                    import traceback
+                    errors.append("worker failed: %r" % (e,))
+                    continue
+                for k in ("cases", "variants", "interleavings", "digests", "exhaustive_streams", "bytes", "steps", "aborted_cases"):
+                    tot[k] += part.get(k, 0)
+                for k, v in part.get("kinds", {}).items():
+                    tot["kinds"][k] = tot["kinds"].get(k, 0) + v
+                tot["viol"].extend(part["viol"])
+                if len(tot["samples"]) < 2:
+                    tot["samples"].extend(part["samples"][:1])
+                if time.time() - t0 < cap:
+                    j = next(it, None)
+                    if j is not None:
+                        pending.add(ex.submit(fn, j))
+    wall = time.time() - t0
+    rcode = 0
+    rdir = os.environ.get("VERIF_REPLAY_DIR") or os.path.join(VERIF, "replays")
+    os.makedirs(rdir, exist_ok=True)
+    seen = set()
+    new = []
+    for e in sorted(tot["viol"], key=lambda x: x["nsteps"]):
+        if e["sig"] in seen:
+            continue
+        seen.add(e["sig"])
+        kf = [k for k in known if k.get("status") == "known" and e["sig"].startswith(k["signature"])]
+        if kf:
+            print("KNOWN-FINDING: property=%s %s" % (prop, kf[0]["what"]))
+            continue
+        new.append(e)
+    for e in new[:3]:
+        path = os.path.join(rdir, "%s-%s-%d.json" % (prop, hashlib.sha1(e["sig"].encode()).hexdigest()[:10], e["seed"]))
+        rp = dict(e["replay"])
+        rp["message"] = e["msg"]
+        rp["replay_cmd"] = "./check %s --replay %s" % (prop, path)
+        with open(path, "w") as f:
+            json.dump(rp, f, indent=1)
+        ok, msg = replay(ns, json.load(open(path)))
+        if ok:
+            errors.append("violation %s did not reproduce from its replay file" % e["sig"])
+            continue
+        print("VIOLATION property=%s replay=%s" % (prop, path))
+        print("  %s: %s" % (e["sig"], e["msg"][:600]))
+        rcode = 1
+    evals = tot["variants"] if prop == "C03" else tot["interleavings"]
+    cov = {
+        "evaluations": evals,
+        "distinct_nontrivial": tot["digests"],
+        "rule": ("C03: case = seeded prefix history + seeded stream of well-formed broker packets; evaluation = one chunk composition of "
+                 "that stream compared with the one-packet-per-chunk run; distinct = distinct (case, composition) pairs; all compositions "
+                 "enumerated for streams <= 12 bytes" if prop == "C03" else
+                 "C19: case = two seeded single-address histories; evaluation = one seeded time-ordered interleaving on one factory whose "
+                 "per-address observation logs are compared with the solo runs; distinct = distinct event-log digests of joint runs"),
+        "samples": tot["samples"][:2] or [{"note": "no short sample"}],
+        "cases": tot["cases"],
+        "composition_kinds": tot["kinds"],
+        "streams_enumerated_exhaustively": tot["exhaustive_streams"],
+        "stream_bytes": tot["bytes"],
+        "cases_with_close_call": tot["aborted_cases"],
+        "joint_steps": tot["steps"],
+        "runs_per_hour": int(evals / max(wall, 1e-9) * 3600),
+        "new_violation_signatures": sorted(x["sig"] for x in new),
+        "harness_errors": len(errors),
+        "real_components": ["src/mqtt/**", "twisted Deferred/Protocol/DelayedCall/LoopingCall"],
+        "stubbed_components": ["reactor (time only)", "TCP transport", "broker", "application", "jitter source"],
+    }
+    write_evidence(prop, tier, seed, "fault_enumeration" if prop == "C03" else "exploration", cov,
+                   ["TCP preserves order and content; only chunk boundaries vary (C03)",
+                    "jitter is a function of (address, draw index) so solo and joint runs draw the same values (C19)",
+                    "a clean batch is evidence, not proof"], wall, len(new))
+    print("%s: %d cases, %d evaluations in %.1fs; %d new violation signature(s)" % (prop, tot["cases"], evals, wall, len(new)))
+    for er in errors[:5]:
+        print("HARNESS-ERROR %s" % er)
+    if errors:
+        return 2 if rcode == 0 else rcode
+    if evals == 0:
+        print("HARNESS-ERROR nothing evaluated")
+        return 2
+    return rcode
